@@ -36,6 +36,16 @@ CHECKS = {
         note="Trusted: line events inside parser.py/interpreter.py as the work measure; B(n)=20000+2000n+20n^2; evaluation is "
              "compared only for programs without system functions; address-free reprs patched onto parser objects (display only).",
         design="3/C12"),
+    "C15": dict(
+        category="exploration",
+        technique="property-based testing of generated timer scenarios on a harness-owned virtual-time event loop; online monitor / trace predicate as oracle",
+        text="The real .timer/.timerc/_call_periodic code runs on a virtual-time loop (asyncio eligibility rule) under generated "
+             "callback scripts (durations, return values, cancel-self/cancel-other/redefine/raise), intervals, inexact start "
+             "times, early/late dispatch and external cancels; a monitor checks boundary, once-per-boundary, skip-missed, "
+             "stop-for-good, .timerc result and re-resolution clauses on every invocation. Exploration-level.",
+        note="Trusted: the virtual loop's fidelity to asyncio's call_at/call_later/call_soon semantics (clock resolution 1e-9); "
+             "return values limited to documented 1/0 (+2); exact-boundary callback ends accept both readings.",
+        design="3/C15"),
 }
 
 NOT_APPLICABLE = {
